@@ -548,7 +548,7 @@ PROPS = {
         'extra': [kani.part(KANI_U1_PULL, 'C11')],
         'witness': witness_u1,
         'technique': 'Verus function contracts + loop invariants + unfolding lemmas on the real decoder functions (mechanical extraction, real ciborium types), against an RFC 8949 spec function; assumed contract for ciborium-ll Decoder',
-        'level_text': 'Deductive proof (Verus/Z3, no bound on input length, nesting or loop iterations) that decode_cbor returns Ok exactly when the input begins with a well-formed RFC 8949 item whose text strings are valid UTF-8 (truncation, reserved additional information 28-30, 31 on major types 0/1/6, stray break, wrong-type or indefinite chunks => Err) and that the returned Value is the item data-model value (full 64-bit uint/nint range, floats as delivered by the head, tags, simple values, concatenated chunks, arrays/maps in encoded order with duplicates kept). All seven functions decode_cbor, decode_value, read_exact_len, read_bytes, read_text, decode_array, decode_map are under contract; termination is proved. One RFC rule (two-byte simple values < 32 are not well-formed) is not implemented by the crate: known finding F2; the proof is against the spec with exactly that rule removed and the strict clause is kept as a failing, labelled obligation.',
+        'level_text': 'Deductive proof (Verus/Z3, no bound on input length, nesting or loop iterations) that decode_cbor returns Ok exactly when the input begins with a well-formed RFC 8949 item whose text strings are valid UTF-8 (truncation, reserved additional information 28-30, 31 on major types 0/1/6, stray break, wrong-type or indefinite chunks => Err) and that the returned Value is the item data-model value (full 64-bit uint/nint range, floats as delivered by the head, tags, simple values, concatenated chunks, arrays/maps in encoded order with duplicates kept). All of decode_cbor, decode_value, check_simple_width, read_exact_len, read_bytes, read_text, decode_array, decode_map are under contract; termination is proved. Eight functions are under contract (check_simple_width added by fix F2). Defects found by this unit and repaired: F1 (indefinite chunk inside an indefinite string), F2 (f8 14 accepted), F3 (allocation from the wire length).',
         'level_note': 'Trusted: Verus+Z3; vstd specs of Vec/String/Box; ASSUMED contracts (listed in evidence.trusted_base): ciborium-ll Decoder::pull/push/offset/read_exact over an in-memory byte source (pull = RFC head parse mapped to Header - this one is CROSS-CHECKED on every run by a complete Kani harness that executes the real ciborium-ll 0.2.2 pull/push on 9 symbolic bytes against an executable transcription of the spec head/hdr_of; the transcription Verus spec <-> Rust twin is by hand), Decoder::from, Cursor::new, Header == Break, ciborium Integer::from(u64/i64)/try_from(i128), String::from_utf8 (Ok <=> valid UTF-8), UTF-8 encoding distributes over concatenation, 64-bit usize, half/f32->f64 widening inside pull (uninterpreted). Extraction rewrites R1 (closure/for `_` names), R2 (map_err inlined to match), R3, R4 (simple::* constants re-declared and pinned by static assertions). Stack depth of the recursion is not modelled.',
         'design_ref': 'DESIGN.md 4 U1',
         'scope': 'decode_cbor and the six functions below it in src/validator/cbor_value.rs',
